@@ -79,7 +79,9 @@ void AsyncSim::setup() {
 	// a few rounds so that the extender has something to extend
 	for (int i = 0; i < (ha ? 40 : 4); i++) {
 		ReplyMeta m;
-		world.make_signature(imprint(1, "pre" + std::to_string(i)), 0, 100 + i, true, m);
+		std::string h = imprint(1, "pre" + std::to_string(i));
+		known_sigs.push_back(world.make_signature(h, 0, 100 + i, true, m));
+		known_hashes.push_back(h);
 		known_times.push_back(m.agg_time);
 	}
 	ctx = sdk::new_ctx((int)plan.c("loglevel", 0));
@@ -408,6 +410,33 @@ void AsyncSim::op_add(const run::Op &op) {
 		res = KSI_AsyncSigningHandle_new(ctx, dh, rec->level, &h);
 		if (res != KSI_OK) { KSI_DataHash_free(dh); K.inconclusive = true; K.inconclusive_why = "handle_new failed"; return; }
 	} else {
+		if (!ha && op.arg(1) % 5 == 4) {
+			// extend a signature through the service: the handle is made from the signature and, optionally, a publication record
+			size_t k = (size_t)op.arg(0) % known_sigs.size();
+			rec->sig_extend = true; rec->src_sig = known_sigs[k]; rec->src_hash = known_hashes[k];
+			rec->agg_time = known_times[k];
+			rec->pub_variant = (int)(op.arg(1) / 5 % 3);   // 0 none (calendar head), 1 record the calendar reproduces, 2 record with another hash
+			int pres = 0;
+			KSI_Signature *src = sdk::parse_sig(ctx, rec->src_sig, &pres);
+			KSI_PublicationRecord *prec = nullptr;
+			if (src && rec->pub_variant) {
+				rec->has_pub = true;
+				rec->pub_time = std::min<uint64_t>(world.head(), rec->agg_time + 1 + (uint64_t)(op.arg(1) / 15 % 3));
+				rec->pub_root = rec->pub_variant == 1 ? world.cal.root(rec->pub_time) : imprint(1, "a publication the calendar does not reproduce");
+				KSI_PublicationData *pd = nullptr; KSI_Integer *t = nullptr;
+				KSI_PublicationData_new(ctx, &pd);
+				KSI_Integer_new(ctx, rec->pub_time, &t);
+				KSI_PublicationData_setTime(pd, t);
+				KSI_PublicationData_setImprint(pd, sdk::hash_from_imprint(ctx, rec->pub_root));
+				KSI_PublicationRecord_new(ctx, &prec);
+				KSI_PublicationRecord_setPublishedData(prec, pd);
+			}
+			res = src ? KSI_AsyncExtendingHandle_new(ctx, src, prec, &h) : KSI_UNKNOWN_ERROR;
+			KSI_PublicationRecord_free(prec);
+			KSI_Signature_free(src);
+			if (res != KSI_OK) { K.inconclusive = true; K.inconclusive_why = "extending handle_new failed"; return; }
+			K.count("probe.signature_extending_handle");
+		} else {
 		KSI_ExtendReq *rq = nullptr;
 		KSI_ExtendReq_new(ctx, &rq);
 		rec->agg_time = ha ? known_times[hash_counter++ % known_times.size()] : known_times[(size_t)op.arg(0) % known_times.size()];
@@ -423,6 +452,7 @@ void AsyncSim::op_add(const run::Op &op) {
 		}
 		res = KSI_AsyncExtendHandle_new(ctx, rq, &h);
 		if (res != KSI_OK) { KSI_ExtendReq_free(rq); K.inconclusive = true; K.inconclusive_why = "handle_new failed"; return; }
+		}
 	}
 	rec->h = h;
 	if (ha) ha_before_add(*rec);
@@ -852,6 +882,18 @@ void AsyncSim::exec(const run::Op &op) {
 	}
 	else if (k == "QUIESCE") quiesce();
 	else if (k == "RECREATE") op_recreate();
+	else if (k == "GROWCACHE") {
+		// the application enlarges the request cache while requests are outstanding (the id cursor may have wrapped by then)
+		if (ha || !svc || in_quiesce) return;
+		size_t bigger = cache + 1 + (size_t)op.arg(0) % 6;
+		int res = KSI_AsyncService_setOption(svc, KSI_ASYNC_OPT_REQUEST_CACHE_SIZE, (void *)bigger);
+		K.ev("GROWCACHE %zu -> %zu : 0x%x (%zu outstanding)", cache, bigger, res, outstanding());
+		K.count("probe.cache_grown");
+		if (outstanding() > 0) K.count("probe.cache_grown_with_outstanding");
+		if (res == KSI_OK) cache = bigger;
+		else K.fail("C13", "cache-growth-refused", sdk::err_name(res), "enlarging the request cache from %zu to %zu failed with 0x%x", cache, bigger, res);
+		after_api("setoption");
+	}
 	else if (k == "SILENT") { if (ha) eps[(size_t)op.arg(0) % eps.size()].silent = true; }
 	else op_fault(op);
 	record_state();
@@ -1074,6 +1116,32 @@ void AsyncSim::check_response(HRec &r, Attempt &a) {
 			bool same = false;
 			for (auto *g : good) if (g->info.has_cal && at && g->info.cal_agg == KSI_Integer_getUInt64(at) && pt && g->info.cal_pub == KSI_Integer_getUInt64(pt)) same = true;
 			if (!same) K.fail("C13", "response-content-mismatch", "calendar", "handle #%d: calendar chain is not that of any eligible reply", r.idx);
+		}
+		if (r.sig_extend && !K.failed()) {
+			// C08 through the asynchronous service: the extended signature keeps the aggregation chains, carries the reply's calendar
+			// chain and exactly the supplied publication record, and is consistent - or no signature is produced
+			KSI_Signature *ext = nullptr;
+			int gs = KSI_AsyncHandle_getSignature(r.h, &ext);
+			K.ev("extended signature of #%d -> 0x%x", r.idx, gs);
+			if (gs == KSI_OK && ext) {
+				std::string bytes = sdk::serialize(ext);
+				SigView v, sv; bool parsed = parse_signature(bytes, v); parse_signature(r.src_sig, sv);
+				SigFacts f = parsed ? evaluate(v) : SigFacts();
+				if (!(parsed && f.consistent)) K.fail("C08", "extended-signature-inconsistent", f.why, "handle #%d: the extended signature is not internally consistent (%s)", r.idx, f.why.c_str());
+				else {
+					if (v.agg_raw != sv.agg_raw) K.fail("C08", "aggregation-chains-changed", "async", "handle #%d: extending changed the aggregation hash chains", r.idx);
+					if (f.input_hash != r.src_hash) K.fail("C08", "document-hash-changed", "async", "handle #%d: the extended signature is for another document hash", r.idx);
+					bool from_reply = false;
+					for (auto *g : good) if (v.cal_raw == g->info.cal_enc) from_reply = true;
+					if (!from_reply) K.fail("C08", "calendar-chain-not-the-replys", "async", "handle #%d: the extended signature does not carry an eligible reply's calendar chain", r.idx);
+					if (v.has_auth) K.fail("C08", "auth-record-kept", "async", "handle #%d: the extended signature still carries a calendar authentication record", r.idx);
+					if (r.pub_variant && (!v.has_pub || v.pub_time != r.pub_time || v.pub_hash != r.pub_root)) K.fail("C08", "publication-record-not-the-supplied-one", "async", "handle #%d: the extended signature does not carry the supplied publication record", r.idx);
+					if (!r.pub_variant && v.has_pub) K.fail("C08", "publication-record-invented", "async", "handle #%d: the extended signature carries a publication record nobody supplied", r.idx);
+					if (r.pub_variant == 2) K.fail("C08", "extended-to-a-publication-the-chain-does-not-reproduce", "async", "handle #%d: extending succeeded with a publication record whose hash is not the root of the reply's chain", r.idx);
+				}
+				K.count("outcome.extended_signature");
+				KSI_Signature_free(ext);
+			} else K.count("outcome.extended_signature_refused");
 		}
 	}
 }
